@@ -338,6 +338,30 @@ def r3(ctx, R):
     for c in rederive:
         if [norm(a) for a in c.args] != ["self", "[cells]"]:
             R.bad(fi, c, "sub cells is not re-derived from the new cells")
+    # ---- a re-bound / re-derived reference is always replaced, with the defined-ness it is given
+    ocr = ctx.func("UserSpaceImpl.on_change_ref")
+    R.inst("on_change_ref: every normal path deletes the old reference and creates one with the given is_derived")
+    mk = q.calls(ocr, name="on_create_ref")
+    dl = q.calls(ocr, name="on_del_ref")
+    okc = bool(mk) and bool(dl) and ocr.cfg.must_pass(q.nodes_for(ocr, mk), ocr.cfg.exit, labels=("N", "T", "F")) \
+        and ocr.cfg.must_pass(q.nodes_for(ocr, dl), ocr.cfg.exit, labels=("N", "T", "F"))
+    if okc:
+        c_ = mk[0]
+        dv = kw(c_, "is_derived") or (c_.args[2] if len(c_.args) > 2 else None)
+        okc = dv is not None and norm(dv) == "is_derived" and not any(
+            isinstance(n_, ast.Name) and n_.id == "is_derived" and isinstance(n_.ctx, ast.Store) for n_ in walk_local(ocr.node))
+    if not okc:
+        R.bad(ocr, ocr.node, "some path re-binds (or keeps) a reference without replacing it by one of the requested kind: "
+                             "`Sub.x = <the object it already derives>` leaves Sub.x derived, and the next edit of the base "
+                             "overwrites the override", stmt="on_change_ref replaces")
+    roi = ctx.func("ReferenceImpl.on_inherit")
+    R.inst("ReferenceImpl.on_inherit: every normal path re-binds the value and notifies the container")
+    ws_ = [st for st, t in q.attr_writes(roi, attr="interface", recv="self")]
+    nt_ = q.calls(roi, name="notify", recv_endswith="container")
+    if not ws_ or not nt_ or not roi.cfg.must_pass(q.nodes_for(roi, ws_), roi.cfg.exit, labels=("N", "T", "F")) \
+            or not roi.cfg.must_pass(q.nodes_for(roi, nt_), roi.cfg.exit, labels=("N", "T", "F")):
+        R.bad(roi, roi.node, "a derived reference can keep the object of its former first definer (a shortcut skips the "
+                             "re-binding or the notification)", stmt="on_inherit re-binds")
     # ---- new_ref / change_ref
     fi = ctx.func("SpaceManager.new_ref")
     lp = [l for l in _sub_loops(fi)]
